@@ -241,7 +241,7 @@ def bodyless_case(rng, with_octets):
         else:
             pieces = [xs(b"HTTP/1.1 200 OK\r\nContent-Length: 4\r\n\r\nEVIL")] if rng.chance(1, 2) else ["d%d" % rng.range(1, 30)]
     else:
-        pieces = [xs(b"0\r\n\r\n")] if ofr == "ch" else []
+        pieces = []
     return mk("n", rng.choice(["11", "10k"]), "GET", status, ofr, seed, pieces, "-", rng.choice(["keep", "fin"]), "-", (), "-", 0)
 
 
